@@ -49,6 +49,30 @@ func TestFamily(t *testing.T) {
 		for i := first; i < first+runs; i++ {
 			s := int64(seed)*1000 + int64(i)
 			var c *Cluster
+			// watchdog (real time, outside the bubble): a run that spins without finishing is a harness
+			// problem to look at, never a verdict; the goroutine dump says where it spins
+			wdStop := make(chan struct{})
+			go func(f string, s int64) {
+				tk := time.NewTicker(2 * time.Second)
+				defer tk.Stop()
+				deadline := time.Now().Add(time.Duration(envInt("VERIF_WATCHDOG_S", 240)) * time.Second)
+				for {
+					select {
+					case <-wdStop:
+						return
+					case <-tk.C:
+						var ms runtime.MemStats
+						runtime.ReadMemStats(&ms)
+						if time.Now().After(deadline) || ms.HeapAlloc > 6<<30 {
+							buf := make([]byte, 4<<20)
+							buf = buf[:runtime.Stack(buf, true)]
+							_ = os.WriteFile(filepath.Join(out, fmt.Sprintf("%s-%d.hang.txt", f, s)), buf, 0o644)
+							fmt.Printf("HANG family=%s seed=%d heap=%d\n", f, s, ms.HeapAlloc)
+							os.Exit(3)
+						}
+					}
+				}
+			}(f, s)
 			func() {
 				// safety net: a goroutine the library leaves blocked for ever (e.g. inside a
 				// blocking API call) makes the bubble report a deadlock when it ends; the
@@ -70,6 +94,7 @@ func TestFamily(t *testing.T) {
 					c.Finish()
 				})
 			}()
+			close(wdStop)
 			p := filepath.Join(out, fmt.Sprintf("%s-%d.ndjson", f, s))
 			if err := c.Tr.WriteFile(p); err != nil {
 				t.Fatal(err)
